@@ -378,6 +378,7 @@ type Response struct {
 	Framing       string
 	ContentLength int64
 	BodyErr       string // non-empty if the body could not be read to its announced end
+	Close         bool   // the server announced Connection: close
 }
 
 // Conn is a client connection to the proxy: plain (absolute-form requests) or a CONNECT tunnel with TLS.
@@ -441,7 +442,7 @@ func (c *Conn) Read(method string, timeout time.Duration) (*Response, error) {
 	if err != nil {
 		return nil, err
 	}
-	r := &Response{Status: resp.StatusCode, Proto: resp.Proto, Header: resp.Header, ContentLength: resp.ContentLength}
+	r := &Response{Status: resp.StatusCode, Proto: resp.Proto, Header: resp.Header, ContentLength: resp.ContentLength, Close: resp.Close}
 	switch {
 	case len(resp.TransferEncoding) > 0 && resp.TransferEncoding[0] == "chunked":
 		r.Framing = "chunked"
